@@ -379,6 +379,8 @@ impl ConvexCell<WithoutFaces> {
                     .iloc(self.clipping_planes[dual[2]].right_loc(self.idx, generators));
                 let v = simulation_boundary.iloc(p.right_loc(self.idx, generators));
                 clip = in_sphere_test_exact(&a, &b, &c, &d, &v);
+                #[cfg(feature = "verif_hooks")]
+                super::verif_hooks::count_exact(clip);
             }
             if clip < 0. {
                 num_v -= 1;
